@@ -519,7 +519,10 @@ def attribution_table(o):
         ms = map_segs(o['maps']['c1']); out['map1'] = [lookup(ms, l, c) for (l, c) in pos]
     if 'c0' in o['maps']:
         ms = map_segs(o['maps']['c0'])
-        out['map0'] = [next(((x[2][0], x[2][1]) for x in ms if x[0] == l and x[2] is not None), None) for l in range(1, end[0] + 1)]
+        # (file, line) of every character position resolved the ordinary way (greatest segment at or before it); for a
+        # well-formed lines-only map (one segment per line at column 0) this is the line's first mapped segment
+        def fl(a): return None if a is None else (a[0], a[1])
+        out['map0'] = [fl(lookup(ms, l, c)) for (l, c) in pos]
     if 'c1f0' in o['streams']:
         st = stream_attr(o['streams']['c1f0']); out['stream1'] = [lookup(st, l, c) for (l, c) in pos]
     return out
